@@ -7,6 +7,7 @@ import (
 	"fmt"
 	"net"
 	"net/http"
+	"reflect"
 	"sort"
 	"strings"
 	"sync"
@@ -37,12 +38,14 @@ type Scenario struct {
 	LazyToo bool
 	// LazyDescToo: and for the combination (lazy start + descending ids)
 	LazyDescToo bool
+	// OptsToo: likewise once more with every behaviour-neutral library option switched on (AllOpts)
+	OptsToo bool
 }
 
 // AllParams returns the tuples of a tier including the derived "-desc" variants.
 func (sc *Scenario) AllParams(tier string) []Param {
 	ps := sc.Params(tier)
-	if !sc.DescToo && !sc.LazyToo && !sc.LazyDescToo {
+	if !sc.DescToo && !sc.LazyToo && !sc.LazyDescToo && !sc.OptsToo {
 		return ps
 	}
 	var out []Param
@@ -72,6 +75,9 @@ func (sc *Scenario) AllParams(tier string) []Param {
 				q.V["desc"] = 1
 				out = append(out, q)
 			}
+		}
+		if sc.OptsToo && p.V["desc"] == 0 && p.V["lazy"] == 0 && p.V["opts"] == 0 {
+			out = append(out, variant(p, "opts", "-opts"))
 		}
 	}
 	return out
@@ -124,7 +130,37 @@ var (
 )
 
 // NewWorld builds the server side. It must be called on a scheduler-registered goroutine.
+// AllOpts (set per execution from the tuple's "opts" flag, see Scenario.OptsToo) switches on every
+// library option that should not change behaviour: a tracer, an explicit request size limit, a
+// server error table holding only the built-in entry, a decoder / encoder for a parameter type
+// nobody uses. A change that hides behind such an option is then exercised by the same drivers.
+var AllOpts atomic.Bool
+
+type unusedParamType struct{ X int }
+
+func benignServerOpts() []jsonrpc.ServerOption {
+	return []jsonrpc.ServerOption{
+		jsonrpc.WithTracer(func(method string, params []reflect.Value, results []reflect.Value, err error) {}),
+		jsonrpc.WithMaxRequestSize(16 << 20),
+		jsonrpc.WithServerErrors(jsonrpc.NewErrors()),
+		jsonrpc.WithParamDecoder(new(unusedParamType), func(ctx context.Context, b []byte) (reflect.Value, error) {
+			var v unusedParamType
+			err := json.Unmarshal(b, &v)
+			return reflect.ValueOf(v), err
+		}),
+	}
+}
+
+func benignClientOpts() []jsonrpc.Option {
+	return []jsonrpc.Option{
+		jsonrpc.WithParamEncoder(new(unusedParamType), func(v reflect.Value) (reflect.Value, error) { return v, nil }),
+	}
+}
+
 func NewWorld(s *vsched.Sched, opts ...jsonrpc.ServerOption) *World {
+	if AllOpts.Load() {
+		opts = append(benignServerOpts(), opts...) // the scenario's own options win
+	}
 	w := &World{S: s}
 	w.Ctx, w.Cancel = context.WithCancel(context.Background())
 	w.SrvCtx, w.SrvCancel = context.WithCancel(context.Background())
@@ -185,6 +221,9 @@ func (w *World) nextConnSeq() string {
 
 // WS creates a WebSocket client.
 func (w *World) WS(ns string, out interface{}, opts ...jsonrpc.Option) (jsonrpc.ClientCloser, error) {
+	if AllOpts.Load() {
+		opts = append(benignClientOpts(), opts...)
+	}
 	cl, err := jsonrpc.NewMergeClient(w.Ctx, "ws://"+Addr+"/rpc", ns, []interface{}{out}, nil, opts...)
 	if err == nil {
 		w.mu.Lock()
@@ -196,6 +235,9 @@ func (w *World) WS(ns string, out interface{}, opts ...jsonrpc.Option) (jsonrpc.
 
 // HTTPClient creates an HTTP client.
 func (w *World) HTTPClient(ns string, out interface{}, opts ...jsonrpc.Option) (jsonrpc.ClientCloser, error) {
+	if AllOpts.Load() {
+		opts = append(benignClientOpts(), opts...)
+	}
 	opts = append([]jsonrpc.Option{jsonrpc.WithHTTPClient(w.HC)}, opts...)
 	return jsonrpc.NewMergeClient(w.Ctx, "http://"+Addr+"/rpc", ns, []interface{}{out}, nil, opts...)
 }
